@@ -1284,6 +1284,24 @@ class Spec(object):
                 return not isinstance(r, Top)
             if is_sym(v):
                 return self.assumed(Op("hasattr", v, args[1]))
+        if f is setattr and len(args) == 3 and isinstance(args[0], Instance) and isinstance(args[1], str):
+            # setattr(obj, "name", value) on a repo object: the same store as obj.name = value
+            if self.guards:
+                c_ = self.guards[-1] if len(self.guards) == 1 else Op("and*", *self.guards)
+                args[0].attrs[args[1]] = phi(c_, args[2], args[0].attrs.get(args[1], Top("unset")))
+            else:
+                args[0].attrs[args[1]] = args[2]
+            self.effect("store-attr", args[0].cls.name, args[1], args[2], node=node)
+            return None
+        if getattr(f, "__name__", "") in ("deepcopy", "copy") and getattr(f, "__module__", "") == "copy" and len(args) >= 1 and isinstance(args[0], Instance):
+            # a copy of a repo object: a new object of the same class whose attributes are copies (containers one level deep; symbolic values are immutable terms)
+            src = args[0]
+            new = Instance(src.cls)
+            for k_, v_ in src.attrs.items():
+                new.attrs[k_] = list(v_) if isinstance(v_, list) else dict(v_) if isinstance(v_, dict) else set(v_) if isinstance(v_, set) else v_
+            if hasattr(src, "prim"):
+                new.prim = src.prim
+            return new
         if f is getattr and len(args) >= 2 and not is_sym(args[1]):
             v = args[0]
             if isinstance(v, (ModuleNS, ClassRef, Instance)) or is_sym(v):
